@@ -34,13 +34,15 @@ AgreeOk(e) == /\ Len(e.cp) = Len(e.pts)
 
 (* one step of a construction route: `base` is the network before, `polys` the network after *)
 SameRings(e)  == \A k \in DOMAIN e.polys : e.polys[k].id \in Ids(e.base) /\ e.polys[k].v = RingOfId(e.base, e.polys[k].id)
+(* a step on a network B derived from another network A (events carry A before / after the step): A's lanelets stay as they are *)
+Isolated(e) == "apolys" \in DOMAIN e => NetFn(e.apolys) = NetFn(e.abase)
 RouteOk(e, h) ==
     /\ UniqueIds(e.polys)
     /\ CASE e.route = "translate_rotate" -> NetFn(e.polys) = NetFn(MoveNet(e.a, e.base))
          [] e.route \in {"remove", "remove_nortree"} -> SameRings(e) /\ Ids(e.polys) = Ids(e.base) \ {e.a[1]}
          [] e.route \in {"add_extra", "add_extra_net"} ->
                 NetFn(e.polys) = [i \in Ids(e.base) \cup {ExtraId} |-> IF i = ExtraId THEN RingOf(Extra) ELSE NetFn(e.base)[i]]
-         [] e.route = "from_network"     -> /\ SameRings(e)
+         [] e.route \in {"from_network", "fork_network_cut"} -> /\ SameRings(e)
                                             /\ MustSet(e.base, LAMBDA P : ShapeRelH(P, e.cut, Noisy(e), h)) \subseteq Ids(e.polys)
                                             /\ Ids(e.polys) \subseteq MaySet(e.base, LAMBDA P : ShapeRelH(P, e.cut, Noisy(e), h))
          [] OTHER                        -> NetFn(e.polys) = NetFn(e.base)      \* builders (base = the lanelets handed over), copies, files
@@ -48,7 +50,8 @@ RouteOk(e, h) ==
 Clause(e) ==
   CASE e.op = "route" ->
          IF e.exc # "" THEN "C06.Total/route"
-         ELSE IF ~RouteOk(e, 1) THEN Named("C06.Route/" \o e.route, e.route = "from_network" /\ HasDisc(e.cut), RouteOk(e, 4)) ELSE ""
+         ELSE IF ~RouteOk(e, 1) THEN Named("C06.Route/" \o e.route, e.route = "from_network" /\ HasDisc(e.cut), RouteOk(e, 4))
+         ELSE IF ~Isolated(e) THEN "C06.Route/isolated" ELSE ""
     [] e.op = "find_by_position" ->
          IF e.exc # "" THEN "C06.Total/find_by_position" ELSE IF ~ByPosOk(e) THEN "C06.ByPosition" ELSE ""
     [] e.op = "find_by_shape" ->
